@@ -17,10 +17,10 @@ inductive PyScalar where
 
 inductive PyVal where
   | scalar (s : PyScalar)
-  /-- `(oid, value)` tuple -/
-  | pair (oid : Bytes) (v : PyScalar)
-  /-- GetBulk result list; `none` is the stop marker `None` -/
-  | list (xs : List (Option (Bytes × PyScalar)))
+  /-- `(oid, value)` tuple; `raw` is ghost state: the OID octets the text was rendered from -/
+  | pair (raw : Bytes) (oid : Bytes) (v : PyScalar)
+  /-- GetBulk result list; `none` is the stop marker `None`; items are (ghost raw OID, text, value) -/
+  | list (xs : List (Option (Bytes × Bytes × PyScalar)))
   /-- `dict` in insertion order, later bindings of a key replace earlier ones -/
   | dict (kvs : List (Bytes × PyScalar))
   deriving Repr, DecidableEq
@@ -151,14 +151,14 @@ def opGetNextToPython (pdu : Pdu) (iter : Option GetIter) : PyOut × Option GetI
         else if !var.value.isData then (stopAsync, some it')
         else
           (liftErr (oidToStr var.oid) (fun k =>
-            liftErr (valueToPy var.value) (fun v => .value (.pair k v))), some it')
+            liftErr (valueToPy var.value) (fun v => .value (.pair var.oid k v))), some it')
       | _ => (.raise (pyClass .InvalidPdu), some it)
     | .report _ => (.raise (pyClass .AuthenticationFailed), some it)
     | _ => (.raise (pyClass .InvalidPdu), some it)
 
 /-- the loop of `OpGetBulk::to_python` -/
-def getBulkLoop : List VarBind → GetIter → List (Option (Bytes × PyScalar)) →
-    (Except PyOut (List (Option (Bytes × PyScalar)))) × GetIter
+def getBulkLoop : List VarBind → GetIter → List (Option (Bytes × Bytes × PyScalar)) →
+    (Except PyOut (List (Option (Bytes × Bytes × PyScalar)))) × GetIter
   | [], it, acc => (.ok acc, it)
   | var :: more, it, acc =>
     if !var.value.isData then getBulkLoop more it acc
@@ -167,7 +167,7 @@ def getBulkLoop : List VarBind → GetIter → List (Option (Bytes × PyScalar))
       if !ok then (.ok (acc ++ [none]), it')
       else match oidToStr var.oid with
         | .ok k => match valueToPy var.value with
-          | .ok v => getBulkLoop more it' (acc ++ [some (k, v)])
+          | .ok v => getBulkLoop more it' (acc ++ [some (var.oid, k, v)])
           | .err e => (.error (.raise (pyClass e)), it')
           | .panic w => (.error (.panic w), it')
         | .err e => (.error (.raise (pyClass e)), it')
